@@ -91,27 +91,44 @@ CONC_KINDS = {"store": 10, "fetch": 8, "expunge": 8, "append": 6, "copy": 6, "mo
 
 
 def concurrent_case(args):
-    seed, = args
+    """args = (seed,) for a generated case, (seed, fixed) for a corpus case: fixed = {"prefix": [op...], "cmds": [op...]}
+    (a history that once exposed a defect, kept in corpus/c10.json; run under the schedule the seed gives)"""
+    seed = args[0]
+    fixed = args[1] if len(args) > 1 else None
     rng = random.Random(seed)
-    nsess = rng.choice([2, 3, 3])
+    if fixed:
+        ids = [o[1] for o in fixed["prefix"] + fixed["cmds"] if len(o) > 1 and isinstance(o[1], int)]
+        nsess = max(ids + [2])
+    else:
+        nsess = rng.choice([2, 3, 3])
     h = mboxx.History(rng, nsess=nsess, mix={"append": 12, "select": 10, "idle": 0, "restart": 0, "poll": 1, "deliver": 2,
                                               "close": 1, "unselect": 1})
     w = W.World(seed=seed)
-    res = {"seed": seed, "error": None}
+    res = {"seed": seed, "error": None, "corpus": bool(fixed)}
     try:
-        h.run(w, rng.randint(6, 22))
+        if fixed:
+            h.run(w, 0)
+            for op in fixed["prefix"]:
+                if op[0] == "mkbox":
+                    continue           # History.run has created the second mailbox
+                issuer = mboxx.SESS.get(op[1]) if len(op) > 1 and isinstance(op[1], int) else None
+                pre_ = h.snapshot(w)
+                obs = h._run(w, op, issuer)
+                h.ops.append(op); h.obs.append(obs); h.snaps.append((pre_, h.snapshot(w))); h.note(w, op, obs)
+        else:
+            h.run(w, rng.randint(6, 22))
         # everybody selects something so that commands are meaningful
         for i in range(1, nsess + 1):
-            if h.selected[i] is None:
+            if h.selected[i] is None and not fixed:
                 op = ("select", i, rng.choice(h.boxes), False)
                 obs = h._run(w, op, mboxx.SESS[i])
                 h.ops.append(op); h.obs.append(obs); h.snaps.append((h.snapshot(w), h.snapshot(w))); h.note(w, op, obs)
         prefix = list(h.ops)
         # one command per session, issued together
-        cmds = []
+        cmds = list(fixed["cmds"]) if fixed else []
         sess = list(range(1, nsess + 1))
         rng.shuffle(sess)
-        for s in sess[:rng.choice([2, nsess])]:
+        for s in ([] if fixed else sess[:rng.choice([2, nsess])]):
             h.mix = dict(CONC_KINDS)
             for _ in range(50):
                 kinds = list(CONC_KINDS)
@@ -250,8 +267,18 @@ def digest_term(boxes):
 def schedule_level(ctx):
     n = 400 if ctx.thorough else 64
     seeds = [ctx.rng.randrange(1 << 30) for _ in range(n)]
-    with mp.get_context("fork").Pool(min(core.NPROC, n)) as pool:
-        results = pool.map(concurrent_case, [(s,) for s in seeds], chunksize=1)
+    # the corpus first: histories that once exposed a defect, each under several schedules
+    import ast
+    corpus = json.load(open(core.VERIF / "corpus" / "c10.json"))
+    jobs = []
+    for e in corpus:
+        fx = {"prefix": [ast.literal_eval(x) for x in e["prefix"]], "cmds": [ast.literal_eval(x) for x in e["cmds"]]}
+        for k in range(8 if ctx.thorough else 3):
+            jobs.append((ctx.rng.randrange(1 << 30), fx))
+    ctx.extra["corpus_cases"] = len(jobs)
+    jobs += [(s,) for s in seeds]
+    with mp.get_context("fork").Pool(min(core.NPROC, len(jobs))) as pool:
+        results = pool.map(concurrent_case, jobs, chunksize=1)
     good = []
     for r in results:
         if r.get("skip"):
@@ -315,7 +342,11 @@ def schedule_level(ctx):
 
 def namespace_races(ctx):
     """DELETE / RENAME of a mailbox that has commands queued: everything completes"""
-    for rep in range(10 if ctx.thorough else 3):
+    import itertools
+    combos = list(itertools.product(range(4), range(4), range(4)))
+    if not ctx.thorough:
+        combos = ctx.rng.sample(combos, 16)
+    for pick in combos:
         seed = ctx.rng.randrange(1 << 30)
         rng = random.Random(seed)
         w = W.World(seed=seed)
@@ -330,9 +361,9 @@ def namespace_races(ctx):
             w.cmd("A", "t SELECT box1")
             w.cmd("B", "t SELECT box1")
             w.set_jitter(random.Random(seed + 1))
-            cmds = [("A", rng.choice(["t FETCH 1:* (FLAGS BODY[])", "t STORE 1:* +FLAGS (\\Deleted)", "t EXPUNGE", "t MOVE 1:2 box2"])),
-                    ("B", rng.choice(["t STORE 2 +FLAGS (kw1)", "t COPY 1:* box2", "t NOOP", "t SEARCH ALL"])),
-                    ("C", rng.choice(["t DELETE box1", "t RENAME box1 box3", "t DELETE box2", "t RENAME box2 box4"]))]
+            cmds = [("A", ["t FETCH 1:* (FLAGS BODY[])", "t STORE 1:* +FLAGS (\\Deleted)", "t EXPUNGE", "t MOVE 1:2 box2"][pick[0]]),
+                    ("B", ["t STORE 2 +FLAGS (kw1)", "t COPY 1:* box2", "t NOOP", "t SEARCH ALL"][pick[1]]),
+                    ("C", ["t DELETE box1", "t RENAME box1 box3", "t DELETE box2", "t RENAME box2 box4"][pick[2]])]
 
             async def batch():
                 return await asyncio.wait_for(asyncio.gather(*[w.acmd(s, c) for s, c in cmds], return_exceptions=True), 600)
@@ -353,6 +384,63 @@ def namespace_races(ctx):
             w.close()
 
 
+def move_races(ctx):
+    """MOVE's removal phase against other sessions' commands on the same mailbox: a non-UID FETCH/STORE/SEARCH of another
+    session is never sent an EXPUNGE, and every FETCH line it is sent names a position of the list it has been told"""
+    others = ["t FETCH 1:* (FLAGS BODY[])", "t FETCH 1:* (FLAGS)", "t STORE 1:* +FLAGS (kw1)", "t SEARCH ALL", "t FETCH 3:4 BODY[]"]
+    moves = ["t MOVE 1:2 box2", "t UID MOVE 1 box1", "t MOVE 2 box1", "t UID MOVE 3:4 box2"]
+    n = 0
+    for mv in moves:
+        for ot in others:
+            for rep in range(6 if ctx.thorough else 2):
+                seed = ctx.rng.randrange(1 << 30)
+                w = W.World(seed=seed)
+                try:
+                    w.session("A"); w.session("B")
+                    w.cmd("A", "t CREATE box1"); w.cmd("A", "t CREATE box2")
+                    for i in range(4):
+                        lit = W.make_msg(i + 1)
+                        w.cmd("A", f"t APPEND box1 {{{len(lit)}}}\r\n" + lit.decode())
+                    w.cmd("A", "t SELECT box1"); w.cmd("B", "t SELECT box1")
+                    w.drain("A"); w.drain("B")
+                    w.set_jitter(random.Random(seed + 7))
+                    delay = random.Random(seed).choice([0, 0.0005, 0.001, 0.002, 0.004])
+
+                    async def later(sess, text, d):
+                        await asyncio.sleep(d)
+                        return await w.acmd(sess, text)
+
+                    async def batch():
+                        return await asyncio.wait_for(asyncio.gather(later("A", mv, 0), later("B", ot, delay), return_exceptions=True), 600)
+                    outs = w.loop.run_until_complete(batch())
+                    w.set_jitter(None)
+                    n += 1
+                    ctx.count({"move_race": [mv, ot], "seed": seed}, nontrivial=True)
+                    ob = outs[1]
+                    if isinstance(ob, Exception):
+                        ctx.violation("a command racing a MOVE raised", {"commands": [mv, ot], "seed": seed, "error": repr(ob)})
+                        continue
+                    view = 4
+                    for line in ob:
+                        m = re.match(rb"^\* (\d+) (EXPUNGE|EXISTS|FETCH)", line)
+                        if not m:
+                            continue
+                        k, what = int(m.group(1)), m.group(2)
+                        if what == b"EXISTS":
+                            view = k
+                        elif what == b"EXPUNGE":
+                            ctx.violation("an EXPUNGE was sent to a session in the middle of its non-UID command (MOVE of another session)",
+                                          {"commands": {"A": mv, "B": ot}, "seed": seed, "sent_to_B": [repr(x[:80]) for x in ob]})
+                            break
+                        elif k > view:
+                            ctx.violation("a FETCH response names a position beyond the list the session has been told about",
+                                          {"commands": {"A": mv, "B": ot}, "seed": seed, "sent_to_B": [repr(x[:80]) for x in ob]})
+                            break
+                finally:
+                    w.close()
+    ctx.extra["move_races"] = n
+
+
 def run(ctx):
     ctx.coverage["rule"] = ("would_conflict: every (kind, set) command against every running list of <=1 commands and sampled "
                             "lists of 2-3, both Deleted states; schedules: a generated history of 6-22 commands, then one "
@@ -365,6 +453,7 @@ def run(ctx):
     conflict_level(ctx)
     schedule_level(ctx)
     namespace_races(ctx)
+    move_races(ctx)
     ctx.assume += ["PARTIAL: fairness of asyncio and termination of each command body are assumptions; threads are modelled as "
                    "completion events; COPY/MOVE are compared as atomic commands in the linearizability oracle",
                    "the footprints of Model/Sched.v are declared, not derived from the command bodies"]
